@@ -102,6 +102,7 @@ UnsatWalk(bs, su, cnt, rc, q) ==          \* bs: ascending bins holding reachabl
   ELSE LET b == Head(bs)  n == Cardinality(BinOf(rc, b))
        IN IF b = su THEN UnsatWalk(Tail(bs), su, cnt + n, rc, q)
           ELSE IF cnt < q THEN su
+          ELSE IF b > su + 1 THEN su + 1      \* a bin in between holds no reachable peer (fix 14da1a4)
           ELSE UnsatWalk(Tail(bs), b, n, rc, q)
 
 ImplDepth(c, rc, rad, q) ==
@@ -229,11 +230,11 @@ DisconnectForce(p) ==
   /\ res' = [op |-> "force", p |-> p]
   /\ UNCHANGED <<pub, radius, prot, selfPub>>
 
-\* the code recomputes the depth only when the new status is Public
+\* the code recomputes the depth on every reachability report (before the fix: only for Public)
 Reachable(p, public) ==
   /\ pub' = IF public THEN pub \cup {p} ELSE pub \ {p}
-  /\ depth' = IF public THEN Recomputed(conn, pub', radius) ELSE depth
-  /\ stale' = IF public THEN FALSE ELSE (stale \/ depth # Recomputed(conn, pub', radius))
+  /\ depth' = Recomputed(conn, pub', radius)
+  /\ stale' = FALSE
   /\ res' = [op |-> "reachable", p |-> p, public |-> public]
   /\ UNCHANGED <<conn, known, radius, prot, selfPub>>
 
